@@ -248,13 +248,19 @@ func TestVerifC20(t *testing.T) {
 			hist = append(hist, "enable+reset")
 		}
 		payloadsByGroup := map[string][]string{}
-		for k := 0; k < rng.Intn(3); k++ {
+		// every fourth account never posts a message in its account group nor in the first group it creates: logs that are
+		// empty on the message side and not on the metadata side (a fresh account, a group nobody has written to yet)
+		quiet := ai%4 == 3
+		if quiet {
+			rep.Count("accounts_with_empty_message_logs", 1)
+		}
+		for k := 0; k < rng.Intn(3) && !quiet; k++ {
 			p := fmt.Sprintf("account-msg-%d", k)
 			if _, err := acc.MessageStore().AddMessage(ctx, []byte(p)); err == nil {
 				payloadsByGroup[string(acc.Group().PublicKey)] = append(payloadsByGroup[string(acc.Group().PublicKey)], p)
 			}
 		}
-		if ai%2 == 1 {
+		if ai%2 == 1 && !quiet {
 			// one entry well above 64 KiB in every other account, whatever the seed
 			p := "account-large-" + strings.Repeat("y", 100<<10)
 			if _, err := acc.MessageStore().AddMessage(ctx, []byte(p)); err == nil {
@@ -263,6 +269,9 @@ func TestVerifC20(t *testing.T) {
 			}
 		}
 		ngroups := rng.Intn(3)
+		if quiet && ngroups == 0 {
+			ngroups = 1
+		}
 		for gi := 0; gi < ngroups; gi++ {
 			r, err := svcA.MultiMemberGroupCreate(ctx, &protocoltypes.MultiMemberGroupCreate_Request{})
 			if err != nil {
@@ -273,7 +282,7 @@ func TestVerifC20(t *testing.T) {
 			for k := 0; k < rng.Intn(3); k++ {
 				_, _ = svcA.AppMetadataSend(ctx, &protocoltypes.AppMetadataSend_Request{GroupPk: r.GroupPk, Payload: []byte(fmt.Sprintf("meta-%d", k))})
 			}
-			for k := 0; k < rng.Intn(9); k++ {
+			for k := 0; k < rng.Intn(9) && !(quiet && gi == 0); k++ {
 				p := fmt.Sprintf("g%d-msg-%d", gi, k)
 				if k == 1 && (gi+ai)%2 == 0 {
 					// entry sizes across the usual buffer boundaries (4 KiB .. 200 KiB)
@@ -601,6 +610,29 @@ func TestVerifC20(t *testing.T) {
 			fs3 := clone()
 			fs3 = append(fs3[:entryIdx[0]], fs3[entryIdx[0]+1:]...)
 			muts = append(muts, mut{"dropped-entry-file", fs3, nil, false})
+			// an entry file present twice, ONE of the copies with bytes that do not hash to the name (a flipped byte, the
+			// bytes of another entry), before or after the genuine copy and at the end of the archive: "an entry whose bytes
+			// do not match its identifier" is in the archive, whichever copy is read first
+			for _, where := range []string{"right-after", "right-before", "at-the-end"} {
+				for _, what := range []string{"flipped-byte", "bytes-of-another-entry"} {
+					fsd := clone()
+					bad := c20File{fsd[entryIdx[0]].name, append([]byte(nil), fsd[entryIdx[0]].data...)}
+					if what == "flipped-byte" {
+						bad.data[len(bad.data)/2] ^= 0x01
+					} else {
+						bad.data = append([]byte(nil), fsd[entryIdx[1]].data...)
+					}
+					switch where {
+					case "right-after":
+						fsd = append(fsd[:entryIdx[0]+1], append([]c20File{bad}, fsd[entryIdx[0]+1:]...)...)
+					case "right-before":
+						fsd = append(fsd[:entryIdx[0]], append([]c20File{bad}, fsd[entryIdx[0]:]...)...)
+					default:
+						fsd = append(fsd, bad)
+					}
+					muts = append(muts, mut{"duplicated-entry-with-wrong-bytes/" + what + "/" + where, fsd, nil, true})
+				}
+			}
 		}
 		for _, ki := range keyIdx {
 			fs := clone()
